@@ -1,5 +1,5 @@
 """Property -> rules registry.  Rules are added here as they are built; a property without rules is not claimed."""
-from .rules import determinism, panics, wiring, traversal, annot, shape, hygiene, enums, shrinking, fresh, sharing, codegen, abi, pmoves, labels
+from .rules import determinism, panics, wiring, traversal, annot, shape, hygiene, enums, shrinking, fresh, sharing, codegen, abi, pmoves, labels, runtime
 
 
 def _thorough_only(rule):
@@ -12,6 +12,18 @@ def _thorough_only(rule):
 
 
 PROPS = {
+    "C20": {
+        "rules": [runtime.rule_cint, runtime.rule_template, runtime.rule_ret, abi.rule_abi_args_only],
+        "text": "Runtime contract decided on the C sources and the generator: (R-CINT) interval abstract interpretation of print_i64/"
+                "println_i64 from clang's AST for the whole int64_t range - no undefined behaviour, every store inside the buffer and "
+                "a digit/'-'/newline, termination, write() covers exactly the stored characters; (R-TEMPLATE) every replace-needle of "
+                "generate_c_driver occurs exactly once in the template, argv conversion returns a 64-bit type, the argc guard "
+                "precedes the call, main returns asm_main's value; (R-ABI/ARGS) for every supported parameter count the argument "
+                "registers reach the first environment positions without a hazard; (R-RET) the result is in the ABI return register "
+                "and survives the epilogue.",
+        "assumptions": ["that the digit loop yields the decimal representation beyond digit range, count and order of stores (value-level) is not decided",
+                        "C library (atoll, write) and the OS truncation of the exit status"],
+    },
     "C14": {
         "rules": [labels.rule_stride, labels.rule_jtorder, labels.rule_label, codegen.rule_isel("x86_64"), codegen.rule_isel("aarch64"),
                   codegen.rule_isel("rv64"), hygiene.rule_seed],
